@@ -4,74 +4,77 @@
 // @h c06_has_default_option_bool tier=thorough
 // @h c06_has_default_option_numbers tier=thorough
 // @h c06_has_default_option_strings tier=thorough
-// @h c06_has_default_option_empty_array tier=off
-// @h c06_has_default_option_array1 tier=off
+// @h c06_has_default_option_empty_array tier=native
+// @h c06_has_default_option_array1 tier=native
 // @h c06_has_default_option_empty_object tier=thorough
 // @h c06_has_default_vec_absent tier=both
 // @h c06_has_default_vec_null tier=thorough
 // @h c06_has_default_vec_bool tier=thorough
 // @h c06_has_default_vec_numbers tier=thorough
 // @h c06_has_default_vec_strings tier=thorough
-// @h c06_has_default_vec_empty_array tier=off
-// @h c06_has_default_vec_array1 tier=off
+// @h c06_has_default_vec_empty_array tier=native
+// @h c06_has_default_vec_array1 tier=native
 // @h c06_has_default_vec_empty_object tier=thorough
 // @h c06_has_default_map_absent tier=both
 // @h c06_has_default_map_null tier=thorough
 // @h c06_has_default_map_bool tier=thorough
 // @h c06_has_default_map_numbers tier=thorough
 // @h c06_has_default_map_strings tier=thorough
-// @h c06_has_default_map_empty_array tier=off
-// @h c06_has_default_map_array1 tier=off
+// @h c06_has_default_map_empty_array tier=native
+// @h c06_has_default_map_array1 tier=native
 // @h c06_has_default_map_empty_object tier=both
+// @h c06_has_default_map_object1 tier=native
+// @h c06_has_default_option_object1 tier=native
 // @h c06_has_default_unit_absent tier=both
 // @h c06_has_default_unit_null tier=thorough
 // @h c06_has_default_unit_bool tier=thorough
 // @h c06_has_default_unit_numbers tier=thorough
 // @h c06_has_default_unit_strings tier=thorough
-// @h c06_has_default_unit_empty_array tier=off
-// @h c06_has_default_unit_array1 tier=off
+// @h c06_has_default_unit_empty_array tier=native
+// @h c06_has_default_unit_array1 tier=native
 // @h c06_has_default_unit_empty_object tier=thorough
 // @h c06_has_default_boolean_absent tier=thorough
 // @h c06_has_default_boolean_null tier=thorough
 // @h c06_has_default_boolean_bool tier=both
 // @h c06_has_default_boolean_numbers tier=thorough
 // @h c06_has_default_boolean_strings tier=thorough
-// @h c06_has_default_boolean_empty_array tier=off
-// @h c06_has_default_boolean_array1 tier=off
+// @h c06_has_default_boolean_empty_array tier=native
+// @h c06_has_default_boolean_array1 tier=native
 // @h c06_has_default_boolean_empty_object tier=thorough
 // @h c06_has_default_integer_absent tier=thorough
 // @h c06_has_default_integer_null tier=thorough
 // @h c06_has_default_integer_bool tier=thorough
 // @h c06_has_default_integer_numbers tier=both
 // @h c06_has_default_integer_strings tier=thorough
-// @h c06_has_default_integer_empty_array tier=off
-// @h c06_has_default_integer_array1 tier=off
+// @h c06_has_default_integer_empty_array tier=native
+// @h c06_has_default_integer_array1 tier=native
 // @h c06_has_default_integer_empty_object tier=thorough
 // @h c06_has_default_string_absent tier=thorough
 // @h c06_has_default_string_null tier=thorough
 // @h c06_has_default_string_bool tier=thorough
 // @h c06_has_default_string_numbers tier=thorough
 // @h c06_has_default_string_strings tier=both
-// @h c06_has_default_string_empty_array tier=off
-// @h c06_has_default_string_array1 tier=off
+// @h c06_has_default_string_empty_array tier=native
+// @h c06_has_default_string_array1 tier=native
 // @h c06_has_default_string_empty_object tier=thorough
 // @h c06_has_default_float_absent tier=thorough
 // @h c06_has_default_float_null tier=thorough
 // @h c06_has_default_float_bool tier=thorough
 // @h c06_has_default_float_numbers tier=both
 // @h c06_has_default_float_strings tier=thorough
-// @h c06_has_default_float_empty_array tier=off
-// @h c06_has_default_float_array1 tier=off
+// @h c06_has_default_float_empty_array tier=native
+// @h c06_has_default_float_array1 tier=native
 // @h c06_has_default_float_empty_object tier=thorough
 // @h c06_has_default_unresolved_absent tier=both
 // @h c06_has_default_unresolved_null tier=thorough
 // @h c06_has_default_unresolved_bool tier=both
 // @h c06_has_default_unresolved_numbers tier=thorough
 // @h c06_has_default_unresolved_strings tier=thorough
-// @h c06_has_default_unresolved_empty_array tier=off
-// @h c06_has_default_unresolved_array1 tier=off
+// @h c06_has_default_unresolved_empty_array tier=native
+// @h c06_has_default_unresolved_array1 tier=native
 // @h c06_has_default_unresolved_empty_object tier=thorough
 // @canary canary_c06_has_default
+// @native-canary canary_c06_has_default
 //
 // C06 -- classification of a property default (`structs::has_default`).
 //
@@ -86,8 +89,10 @@
 //   P4b without a schema default: Optional <==> the kind is Option, Vec, Map or Unit;
 //        otherwise Required
 //
-// NOT DECIDED: ARRAY defaults (`[]`, `[null]`). Their harnesses are kept with `tier=off`: no
-// result in 25 minutes even for `[]` on a Vec (no clone on that path; cause not found).
+// ARRAY defaults (`[]`, `[null]`) and a NON-EMPTY object default are not proved: no result in
+// 25 minutes even for `[]` on a Vec (cause not found), and cloning a string-keyed B-tree does
+// not terminate. Their harnesses draw no symbolic value and are executed natively against the
+// real code instead (`tier=native`, bounded stand-in, never counted as proved).
 //
 // The property's type is looked up in a one-entry id_to_entry; the kind is concrete per
 // harness, the default value is symbolic over the shapes of `any_default`.
@@ -151,11 +156,14 @@ fn any_default(group: u8) -> (Option<Value>, Shape) {
         }
         5 => (Some(Value::Array(Vec::new())), Shape::EmptyArray),
         6 => (Some(Value::Array(vec![Value::Null])), Shape::Array1),
-        _ => {
-            // a NON-empty object default is out of reach: has_default clones it, and cloning a
-            // string-keyed B-tree does not terminate in CBMC (15 min). Only `{}` is probed.
-            (Some(Value::Object(serde_json::Map::new())), Shape::EmptyObject)
+        8 => {
+            // a NON-empty object default is out of CBMC's reach: has_default clones it, and
+            // cloning a string-keyed B-tree does not terminate (15 min). Only executed natively.
+            let mut m = serde_json::Map::new();
+            m.insert(String::from("k"), Value::Bool(true));
+            (Some(Value::Object(m)), Shape::Object1)
         }
+        _ => (Some(Value::Object(serde_json::Map::new())), Shape::EmptyObject),
     }
 }
 
@@ -267,6 +275,8 @@ h!(c06_has_default_map_strings, Some(TypeEntryDetails::Map(TypeId(7), TypeId(8))
 h!(c06_has_default_map_empty_array, Some(TypeEntryDetails::Map(TypeId(7), TypeId(8))), Kind::Map, 5);
 h!(c06_has_default_map_array1, Some(TypeEntryDetails::Map(TypeId(7), TypeId(8))), Kind::Map, 6);
 h!(c06_has_default_map_empty_object, Some(TypeEntryDetails::Map(TypeId(7), TypeId(8))), Kind::Map, 7);
+h!(c06_has_default_map_object1, Some(TypeEntryDetails::Map(TypeId(7), TypeId(8))), Kind::Map, 8);
+h!(c06_has_default_option_object1, Some(TypeEntryDetails::Option(TypeId(7))), Kind::Option, 8);
 h!(c06_has_default_unit_absent, Some(TypeEntryDetails::Unit), Kind::Unit, 0);
 h!(c06_has_default_unit_null, Some(TypeEntryDetails::Unit), Kind::Unit, 1);
 h!(c06_has_default_unit_bool, Some(TypeEntryDetails::Unit), Kind::Unit, 2);
